@@ -83,11 +83,19 @@ CHECKS = {
         "the whole usable size; the invariant 'bytes [requested,usable) of a zero-family block are zero' holds initially and is preserved by every "
         "entry point and by program stores inside the requested size; by induction over arbitrary monotone growth chains (rezalloc/recalloc/aligned "
         "variants, in place or moved, interleaved stores and arbitrary other calls) every byte from the previous requested size on is zero after each "
-        "step. The pre-repair code is shown to violate it (C04_ex_old_code_nonzero); the defect was repaired in /repo (fix: commit). Tie: dirty-heap "
-        "traces on the real allocator reading back every zero-initialised block and every grown range byte by byte.",
-   note="free_is_zero / memid zero knowledge belongs to the page/arena layers; here the zeroing allocation clears the full block as the C code does. "
+        "step. The pre-repair code is shown to violate it (C04_ex_old_code_nonzero); the defect was repaired in /repo (fix: commit). ZERO KNOWLEDGE "
+        "(Properties/C04zero.v over Model/Zero.v: free_is_zero, is_zero_init, memid.initially_zero, blocks_dirty, commit-returns-zero with a ghost "
+        "memory): every knowledge flag that is set is true of the ghost memory in every reachable state for all operation sequences and oracles "
+        "(C04_know_implies_zero), a zeroing allocation returns really-zero memory on both branches (flag set / memzero), freed and written memory "
+        "is dirty and never trusted again; the seeded variant that sets is_zero_init on span re-use is refuted by vm_compute. Tie: dirty-heap "
+        "traces on the real allocator reading back every zero-initialised block and every grown range byte by byte; and harness/f_zero.c, which "
+        "dumps the real flags next to a scan of the real memory (arena layer call by call, one page function by function in exact lockstep, the "
+        "public API) -- a set flag over non-zero memory is impl:zero-flag-wrong, a flag the model does not predict is corr:zero.",
+   note="In this tree is_zero_init is only ever assigned false and the unix commit primitive reports 'not zero', so free_is_zero is never true "
+        "(proved: C04_page_flags_constant_false; modelled anyway so that a change which sets a flag breaks the correspondence). The ghost is "
+        "block / slice / arena-block granular; byte-level statements are those of the API model; there is no refinement theorem between the two. "
         "Shrinking in between ends a chain (the property quantifies over monotone growth chains).",
-   technique="Coq invariant + induction over growth chains + dirty-heap chain oracle",
+   technique="Coq invariants (zero family over the API model; know_implies_zero over the zero-knowledge model) + induction over growth chains + dirty-heap chain oracle + flag/memory-scan differential",
    design="3/C04"),
  "C06": dict(
    text="Machine-checked proof (Coq): mul_overflow/count_size_overflow exact for all 64-bit operands; for every entry point of the API model: oversize "
@@ -198,8 +206,9 @@ CHECKS = {
         "hand); adoption only within the sub-process; pages of abandoned segments are NEVER_DELAYED_FREE so remote frees go to the page list; "
         "abandon/reclaim never write block memory; along every trace a segment is adopted once between two abandonments and the adopter holds "
         "it afterwards; abandoned_count equals the marked segments plus the corrections in flight in every reachable state and is exact at "
-        "quiescence. NAMED OPEN: 'a forced collect from quiescence leaves no dead abandoned segment' is stated (Proofs/AbandonOpen.v, "
-        "C09_full_collect_frees_dead_abandoned) and exercised, not proved. Tie: (1) the scheduler harness runs the real allocator in virtual "
+        "quiescence; a forced collect run from a reachable quiescent state (any visit order, the sub-process's OS-list count) frees every dead "
+        "abandoned segment of the sub-process and keeps every live one (C09_collect_frees_dead_abandoned(_gen)), and no abandoned segment is "
+        "ever orphaned (C09_no_orphan_quiescent, C09_dead_abandoned_released). Tie: (1) the scheduler harness runs the real allocator in virtual "
         "threads that terminate through mi_thread_done with live blocks (reclaim-on-free on/off, arena and OS-list segments, force-abandon, two "
         "bitmap fields); survivors verify the byte patterns and free them; at quiescence no abandoned segment, no block and no claimed arena block "
         "may remain; (2) schedule-lockstep: every hooked access to thread_id, the abandoned bit, abandoned_count and the OS-list locks must be a "
@@ -218,8 +227,9 @@ CHECKS = {
         "stay consistent for every history (C18_expiry_fields_consistent). Tie: function-level differential on the real static functions under an OS "
         "shim + virtual clock (~54k records quick / 517k thorough: masks, bitmaps, expiry fields, system calls and page states equal) and API "
         "workloads for purge_delay in {-1,0,5,10} x purge_decommits in {0,1}, with the two histories of the repaired defect as regression scenarios.",
-   note="Arena system-call lists are proved at bitmap level (purge' = purge AND inuse); multi-pass eventual purging is given as single-pass progress "
-        "lemmas (statements left open in Proofs/OsOpen.v). Sequential arena execution; release build (decommit = madvise only). The 'ordinary "
+   note="The exact madvise calls of an arena visit (C18_arena_try_purge_calls: page-aligned, non-wrapping start as mi_manage_os_memory_ex2 "
+        "establishes) and eventual purging over repeated non-forced passes (C18_arena_eventually_purged, for clock values >= 0) are theorems; the "
+        "unrestricted statements are refuted by vm_compute witnesses that no real arena / clock can produce. Sequential arena execution; release build (decommit = madvise only). The 'ordinary "
         "activity' that purges inside a segment is a page free (an allocation re-using scheduled slices postpones the expiry by design).",
    technique="Coq proof over Gallina models with time as input + OS/clock shim differential + virtual-time workloads",
    design="3/C18"),
@@ -251,9 +261,10 @@ CHECKS = {
         "Tie: the C01-C05/C12 oracles re-run on API traces under a pairwise covering set of option settings (purge delay off/immediate/delayed with "
         "a virtual clock advanced inside the traces, decommit or reset, eager/lazy commit, arena on/off/small, reclaim-on-free, segment target), "
         "half of them on a -DMI_SECURE=1 build in which decommit revokes access so that any access to decommitted memory faults.",
-   note="NAMED PARTIAL: 'the allocator never reads or writes memory it has decommitted' is proved at mask level (live spans are committed, purge "
-        "bits never cover them) and otherwise observed through faults in the access-revoking build; mask soundness under purge when decommit "
-        "revokes access is an open statement (Proofs/OsOpen.v).",
+   note="'The allocator never reads or writes memory it has decommitted' is proved at mask level (live spans are committed, purge bits never "
+        "cover them; the commit mask stays sound under purge, try_purge and schedule_purge also when decommit revokes access: "
+        "C13_mask_sound_purge / _try_purge / _schedule_purge) and otherwise observed through faults in the access-revoking build. 'Every option "
+        "setting' is a pairwise covering set on the implementation side.",
    technique="Coq proof over commit-mask/purge models + option-matrix traces with shadow oracles + access-revoking build",
    design="3/C13"),
  "C02": dict(
